@@ -1989,20 +1989,6 @@ class SQLCompiler(Compiled):
                 elif name in params:
                     pd[escaped_name] = params[name]
 
-                elif _check and bindparam.required:
-                    if _group_number:
-                        raise exc.InvalidRequestError(
-                            "A value is required for bind parameter %r, "
-                            "in parameter group %d"
-                            % (bindparam.key, _group_number),
-                            code="cd3x",
-                        )
-                    else:
-                        raise exc.InvalidRequestError(
-                            "A value is required for bind parameter %r"
-                            % bindparam.key,
-                            code="cd3x",
-                        )
                 else:
                     if resolved_extracted:
                         value_param = resolved_extracted.get(
@@ -2011,7 +1997,21 @@ class SQLCompiler(Compiled):
                     else:
                         value_param = bindparam
 
-                    if value_param.callable:
+                    if _check and value_param.required:
+                        if _group_number:
+                            raise exc.InvalidRequestError(
+                                "A value is required for bind parameter %r, "
+                                "in parameter group %d"
+                                % (bindparam.key, _group_number),
+                                code="cd3x",
+                            )
+                        else:
+                            raise exc.InvalidRequestError(
+                                "A value is required for bind parameter %r"
+                                % bindparam.key,
+                                code="cd3x",
+                            )
+                    elif value_param.callable:
                         pd[escaped_name] = value_param.effective_value
                     else:
                         pd[escaped_name] = value_param.value
@@ -2025,7 +2025,12 @@ class SQLCompiler(Compiled):
                     else name
                 )
 
-                if _check and bindparam.required:
+                if resolved_extracted:
+                    value_param = resolved_extracted.get(bindparam, bindparam)
+                else:
+                    value_param = bindparam
+
+                if _check and value_param.required:
                     if _group_number:
                         raise exc.InvalidRequestError(
                             "A value is required for bind parameter %r, "
@@ -2039,11 +2044,6 @@ class SQLCompiler(Compiled):
                             % bindparam.key,
                             code="cd3x",
                         )
-
-                if resolved_extracted:
-                    value_param = resolved_extracted.get(bindparam, bindparam)
-                else:
-                    value_param = bindparam
 
                 if value_param.callable:
                     pd[escaped_name] = value_param.effective_value
